@@ -11,7 +11,7 @@
 From Coq Require Import ZArith List Bool String.
 Import ListNotations.
 Require Import Grist.Lib.PyFloat Grist.Model.Values Grist.Proofs.Values_enc_proofs Grist.Proofs.Values_depth_proofs.
-Require Import GristGen.Actions_gen.
+Require Import GristGen.Actions_gen Grist.Model.ValuesPy Grist.Model.ValuesPyEnc GristGen.Objtypes_gen Grist.Proofs.Objtypes_bridge.
 Open Scope Z_scope.
 
 Definition C24_full : Prop := forall orc fuel v,
@@ -107,6 +107,43 @@ Theorem C24_refuted_datetime_max :
   encode_f orc 5 v = tag "D" [PFloat false (FNum 1979705475 7); PStr false (Str "UTC")] /\
   encode_f orc 5 (decode_f orc 5 (encode_f orc 5 v)) = tag "E" [PStr false (Str "OverflowError")].
 Proof. cbv zeta. split; vm_compute; reflexivity. Qed.
+
+(* ---- the code itself ------------------------------------------------------------------------------
+   gen_encode_object / gen_decode_object are GristGen.Objtypes_gen: translated by harness/ot2v.py from
+   objtypes.encode_object / decode_object on every run.  The bridging obligations say that they ARE encode_f /
+   decode_f, for every fuel, value and oracle; a semantic edit of the source makes one of them fail. *)
+
+Theorem C24_bridge_encode : forall orc n v, gen_encode_object orc n v = Ok (encode_f orc n v).
+Proof. exact bridge_encode. Qed.
+
+Theorem C24_bridge_decode : forall orc n v, gen_decode_object orc n v = Ok (decode_f orc n v).
+Proof. exact bridge_decode. Qed.
+
+(* encode_object as coded never raises and its result is marshalable *)
+Theorem C24_code_encode_marshalable : forall orc fuel v, vforall node_ok v = true ->
+  exists e, gen_encode_object orc fuel v = Ok e /\ marshalableb e = true.
+Proof.
+  intros orc fuel v H. exists (encode_f orc fuel v). split; [apply bridge_encode|apply encode_marshalable; exact H].
+Qed.
+
+(* decode_object as coded never raises, and encoding what it returns for an encoded form gives that form back *)
+Theorem C24_code_encode_decode_encode_partial : forall orc,
+  zone_ok orc (Str "UTC") = true ->
+  (forall d, MIN_DAY <= d <= MAX_DAY ->
+     o_td_seconds orc (o_total_seconds orc (d * US_PER_DAY)) = UsOk (d * US_PER_DAY)) ->
+  (forall u, in_dt_range u = true ->
+     exists u', o_td_seconds orc (o_total_seconds orc u) = UsOk u' /\ Z.abs (u' - u) <= 16 /\
+                o_total_seconds orc u' = o_total_seconds orc u) ->
+  (forall z u, in_dt_range u = true ->
+     Z.abs (o_ts_offset orc z u) < US_PER_DAY /\
+     o_dt_offset orc z (Some (o_ts_offset orc z u)) (u + o_ts_offset orc z u) = o_ts_offset orc z u) ->
+  forall n v, vforall (node_dt orc) v = true ->
+  exists e d, gen_encode_object orc n v = Ok e /\ gen_decode_object orc n e = Ok d /\ gen_encode_object orc n d = Ok e.
+Proof.
+  intros orc H1 H2 H3 H4 n v Hv. exists (encode_f orc n v), (decode_f orc n (encode_f orc n v)).
+  repeat split; try apply bridge_encode; try apply bridge_decode.
+  rewrite bridge_encode. f_equal. apply encode_decode_encode; assumption.
+Qed.
 
 (* ---- non-vacuity -------------------------------------------------------------------------------- *)
 
